@@ -385,7 +385,73 @@ def gen(seed, tier):
     return out
 
 
+def encode(raw_opts, ops):
+    e = [len(raw_opts)]
+    for o in raw_opts:
+        e += o
+    for op in ops:
+        if op[0] == 'assign':
+            e += [1]
+            e += [0] if op[1] is None else [1, len(op[1])] + list(op[1])
+            e += [len(op[2])]
+            for i, v in op[2]:
+                e += [i, len(v)] + list(v)
+        elif op[0] == 'defaults':
+            e += [2]
+        else:
+            e += [3]
+    return e
+
+
+def raw_options(c):
+    """the undecoded option descriptors (so that re-encoding is exact)"""
+    p = 1
+    out = []
+    for _ in range(c[0] if c else 0):
+        q = p + 2
+        for _ in range(2):
+            if q < len(c) and c[q] != 0:
+                q += 2 + (c[q + 1] if q + 1 < len(c) else 0)
+            else:
+                q += 1
+        out.append(list(c[p:q]))
+        p = q
+    return out
+
+
 def shrink(case, fails):
-    # drop trailing ops, then pairs
     opts, ops = decode(case)
-    return case
+    raw = raw_options(case)
+    if encode(raw, ops) != list(case):
+        return case
+    changed = True
+    while changed:
+        changed = False
+        for i in range(len(ops) - 1, -1, -1):
+            t = ops[:i] + ops[i + 1:]
+            if fails(encode(raw, t)):
+                ops, changed = t, True
+        for i, op in enumerate(ops):
+            if op[0] != 'assign':
+                continue
+            for j in range(len(op[2]) - 1, -1, -1):
+                t = list(ops)
+                t[i] = ('assign', op[1], op[2][:j] + op[2][j + 1:])
+                if fails(encode(raw, t)):
+                    ops, changed, op = t, True, t[i]
+            if op[1]:
+                t = list(ops)
+                t[i] = ('assign', None, op[2])
+                if fails(encode(raw, t)):
+                    ops, changed = t, True
+        # drop the last option when nothing refers to it
+        if len(raw) > 1:
+            last = len(raw) - 1
+            if not any(op[0] == 'assign' and any(i >= last for i, _ in op[2]) for op in ops):
+                if fails(encode(raw[:-1], ops)):
+                    raw, changed = raw[:-1], True
+    return encode(raw, ops)
+
+
+def mutate(case, rnd):
+    return [gen_case(rnd) for _ in range(50)]
